@@ -50,6 +50,7 @@ def oracle(case, out):
 def run(ctx):
     run_hist(ctx, PROFILE, oracle, 1500, 30000, CORPUS)
 
-LEVEL_TEXT = "placeholder"; LEVEL_NOTE = "placeholder"
 TECHNIQUE = "Lean 4 theorems on the time filter of add_reader_change + differential correspondence"
-CLAIMED = False
+LEVEL_TEXT = 'Kernel-checked Lean theorems: an accepted sample is at least minimum_separation after every stored sample of its instance with a stamp not after it (C25_separation_partial) and a sample that far from all of them is never filtered (C25_no_overfilter). The full property fails on the code for out-of-order arrival and after take/replacement (findings D31a/D31b, Lean witness C25_out_of_order_counterexample), reproduced on the real reader by the oracle.'
+LEVEL_NOTE = 'Trusted: Lean kernel (axioms audited: propext, Classical.choice, Quot.sound at most); the hand-written model Model/ReaderHist.lean of data_reader_entity.rs / user_defined_data_reader.rs (handles as Nat, times as total ns, Vec as List); the hist harness that drives the real DataReaderEntity<()> / UserDefinedDataReader through the cfg(dust_dds_verif) re-export and prints canonical lines; the Python oracle. The differential run validates the model on sampled op sequences only; the theorems are about the model.'
+DESIGN_REF = 'DESIGN.md section 5 C25'
